@@ -155,6 +155,10 @@ def make_task(chunk):
     return task
 
 
+from .BK_backend_ops import TRUSTED as BK_TRUSTED
+TRUSTED = TRUSTED + BK_TRUSTED
+
+
 def tasks(tier):
     import os
     seed = int(os.environ.get("VERIF_SEED", "0") or 0)
@@ -172,11 +176,17 @@ def tasks(tier):
     out.append(("batched-variant", batched))
     from .C02_tierp import tierp_tasks
     out += tierp_tasks(tier)
+    # "every backend": each backend's wrapper methods are proved to be the tensor operations the contracts above assume
+    from .BK_backend_ops import backend_op_tasks
+    out += backend_op_tasks(tier)
     return out
 
 
 def replay(r):
     meta = r.get("meta") or {}
+    if meta.get("op") and meta.get("backend"):
+        from .BK_backend_ops import replay_backend_op
+        return replay_backend_op(r)
     skel = meta.get("skeleton")
     if skel is None and "_TensorViewer" in r["name"]:
         import numpy as np
